@@ -20,9 +20,12 @@ import (
 
 //verif:include ../dnsdata/rdb/zz_verif_model.go
 //verif:include ../db/zz_verif_world.go
-//verif:harness H05_sched property=C05 native=no quick=layout=2,reloads=1,queries=1,sched=1;layout=0,reloads=1,queries=2,sched=1;layout=1,reloads=2,queries=1,sched=1;layout=2,reloads=2,queries=2,sched=1 thorough=layout=2,reloads=1,queries=1,sched=2;layout=0,reloads=2,queries=2,sched=2;layout=1,reloads=2,queries=2,sched=2;layout=2,reloads=3,queries=2,sched=1
+//verif:harness H05_sched property=C05 native=no quick=layout=2,reloads=1,queries=1,sched=1,cache=0;layout=0,reloads=1,queries=2,sched=1,cache=0;layout=1,reloads=2,queries=1,sched=1,cache=0;layout=2,reloads=2,queries=2,sched=1,cache=0;layout=0,reloads=1,queries=2,sched=1,cache=1;layout=2,reloads=1,queries=2,sched=1,cache=1 thorough=layout=2,reloads=1,queries=1,sched=2,cache=0;layout=0,reloads=2,queries=2,sched=2,cache=0;layout=1,reloads=2,queries=2,sched=2,cache=0;layout=2,reloads=3,queries=2,sched=1,cache=0;layout=1,reloads=2,queries=2,sched=1,cache=1
 
-const verifGenBase = 5000
+// verifGenBase: generation g is marked by the TTL base+g on every record; the base is chosen by
+// the solver, so every generation judgement below is a solver query over the TTLs that went
+// through the real encoders, readers and the response cache
+var verifGenBase uint32 = 5000
 
 // verifMiniWorld: a zone with an MX whose target has an address (a response that needs several
 // independent look-ups), without maps.
@@ -37,7 +40,7 @@ func verifMiniWorld() []dnsdata.VerifRec {
 func verifGenRecords(gen int) []dnsdata.VerifRec {
 	recs := verifMiniWorld()
 	for i := range recs {
-		recs[i].TTL = uint32(verifGenBase + gen)
+		recs[i].TTL = verifGenBase + uint32(gen)
 	}
 	return recs
 }
@@ -74,7 +77,7 @@ func verifResponseGens(m *dns.Msg) []int {
 			if _, ok := rr.(*dns.OPT); ok {
 				continue
 			}
-			gens = append(gens, int(rr.Header().Ttl)-verifGenBase)
+			gens = append(gens, int(rr.Header().Ttl-verifGenBase))
 		}
 	}
 	return gens
@@ -83,6 +86,8 @@ func verifResponseGens(m *dns.Msg) []int {
 func H05_sched() {
 	verifLayout = nd.Param("layout")
 	reloads, queries := nd.Param("reloads"), nd.Param("queries")
+	verifGenBase = nd.Uint32()
+	nd.Assume(verifGenBase >= 1 && verifGenBase <= 1<<30)
 	verifPathGen = map[string]int{"/db/gen0": 0}
 	verifInstalled = 0
 	verifStarted, verifInflight = 0, false
@@ -90,7 +95,11 @@ func H05_sched() {
 	db.VerifOpen = verifOpenGen
 	first, err := verifOpenGen("/db/gen0")
 	nd.Assert(err == nil, "initial-open")
-	env := verifNewHandler(first, CacheConfig{})
+	cache := CacheConfig{}
+	if nd.Param("cache") == 1 {
+		cache = CacheConfig{Enabled: true, LRUSize: 4} // responses may come from the response cache
+	}
+	env := verifNewHandler(first, cache)
 	env.h.dbConfig.ReloadTimeout = 24 * 3600e9 // the timeout does not expire in this harness (C06 owns timeouts)
 	if b := nd.Param("sched"); b > 0 {
 		nd.SchedExplore(b)
@@ -98,6 +107,8 @@ func H05_sched() {
 	done := make(chan struct{}, 2)
 
 	// reloader
+	served := "/db/gen0" // the path of the last successful switch, tracked by the harness itself
+	env.h.dbConfig.Path = served
 	go func() {
 		nextGen := 1
 		for i := 0; i < reloads; i++ {
@@ -107,10 +118,11 @@ func H05_sched() {
 				verifPathGen[path] = nextGen
 				if env.h.Reload(*NewFullReloadSignal(path)) == nil {
 					verifInstalled = nextGen
+					served = path
 				}
 				nextGen++
-			case 1: // partial reload: the served path now holds a newer generation
-				cur := env.h.dbConfig.Path
+			case 1: // partial reload: the path last switched to (successfully) now holds a newer generation
+				cur := served
 				verifPathGen[cur] = nextGen
 				if m := db.VerifRocksModel(db.VerifDBI(env.h.dnsdb)); m != nil {
 					// RocksDB: the primary advanced; the secondary catches up on reload
@@ -123,6 +135,7 @@ func H05_sched() {
 				verifPartialActive = true
 				rerr := env.h.Reload(*NewPartialReloadSignal())
 				verifPartialActive = false
+				nd.Assert(rerr == nil, "partial-reload-of-the-served-path-succeeds")
 				// recorded finding: an in-place catch-up is not atomic with respect to a query in flight
 				nd.Known("C05-partial-reload-not-atomic", f0 || verifStarted != s0)
 				if rerr == nil {
